@@ -277,8 +277,11 @@ type obs struct {
 // after a request overran the watchdog its goroutine may still burn CPU: the rest of the run only records that
 var abandoned = 0
 
+// thoroughCase: the case was generated for the thorough tier (it may contain the expensive shapes)
+var thoroughCase = false
+
 func (o *obs) do(name string, f func(ctx context.Context) error) {
-	if abandoned > 0 {
+	if abandoned >= 2 {
 		o.skipped++
 		return
 	}
@@ -750,7 +753,7 @@ func kindModel(r *hx.Rand, o *obs) {
 	defer func() {
 		_, _ = srv.DeleteStore(ctx0, &openfgav1.DeleteStoreRequest{StoreId: st})
 	}()
-	depth := hx.Pick(r, []int{0, 1, 2, 3, 6, 25, 200, 3000})
+	depth := hx.Pick(r, []int{0, 1, 2, 3, 6, 25, 200, 1000})
 	var tds []*openfgav1.TypeDefinition
 	if r.Chance(2, 3) {
 		// the valid base model with one or two hostile spots
@@ -769,7 +772,7 @@ func kindModel(r *hx.Rand, o *obs) {
 				td.Relations[rn] = hostileRewrite(r, depth)
 			case 1, 6:
 				// valid and deep: union(this, union(this, … )) / alternating operators
-				td.Relations[rn] = deepValid(r, hx.Pick(r, []int{5, 24, 25, 26, 100, 1000, 5000}))
+				td.Relations[rn] = deepValid(r, hx.Pick(r, []int{5, 24, 25, 26, 100, 1000, 3000})) // 3 message levels per rewrite level: protobuf's recursion limit (10000) caps the wire at ~3300
 				if td.GetMetadata().GetRelations()[rn].GetDirectlyRelatedUserTypes() == nil {
 					td.Metadata.Relations[rn] = &openfgav1.RelationMetadata{DirectlyRelatedUserTypes: []*openfgav1.RelationReference{{Type: "user"}}}
 				}
@@ -781,7 +784,12 @@ func kindModel(r *hx.Rand, o *obs) {
 				td.Relations[mutate(r, rn)] = this()
 			case 5:
 				// a chain of computed usersets r0 -> r1 -> … (long, acyclic) or a cycle
-				n := hx.Pick(r, []int{2, 30, 300})
+				// model validation is super-linear in the chain length (candidate finding): the quick tier stays below
+				// the watchdog, the thorough tier includes the chains that reproduce it
+				n := hx.Pick(r, []int{2, 30, 120})
+				if thoroughCase {
+					n = hx.Pick(r, []int{2, 30, 300, 1000})
+				}
 				for i := 0; i < n; i++ {
 					next := fmt.Sprintf("q%d", i+1)
 					if i == n-1 {
@@ -989,9 +997,10 @@ func kindAuthzen(r *hx.Rand, o *obs) {
 
 func exec(line string, st *hx.Stats) string {
 	f := strings.Fields(line)
-	if len(f) != 3 || f[0] != "c19" {
+	if (len(f) != 3 && len(f) != 4) || f[0] != "c19" {
 		return "badcase"
 	}
+	thoroughCase = len(f) == 4 && f[3] == "t"
 	setup()
 	var seed uint64
 	fmt.Sscan(f[2], &seed)
@@ -1059,7 +1068,11 @@ func gen(r *hx.Rand, n int, tier string, emit func(string), st *hx.Stats) {
 	kinds := []string{"check", "numeric", "batch", "list", "list", "write", "model", "model", "misc", "authzen", "check", "numeric"}
 	for i := 0; i < n; i++ {
 		k := kinds[i%len(kinds)]
-		emit(fmt.Sprintf("c19 %s %d", k, r.U64()>>1))
+		if tier == "thorough" {
+			emit(fmt.Sprintf("c19 %s %d t", k, r.U64()>>1))
+		} else {
+			emit(fmt.Sprintf("c19 %s %d", k, r.U64()>>1))
+		}
 		st.Inc(k)
 	}
 }
